@@ -308,7 +308,10 @@ class Interp:
         pool = s.ids(cls) if cls else sorted(s.nodes)
         if not pool:
             return self.fresh(prefix)
-        return s.name(pool[spec[1] % len(pool)])
+        # even k count from the oldest element, odd k from the newest (small k are what generators and shrinking
+        # prefer; elements made late - facilities, switches, peering artefacts - must be reachable too)
+        k = spec[1]
+        return s.name(pool[(k // 2) % len(pool)] if k % 2 == 0 else pool[-1 - (k // 2) % len(pool)])
 
     def id_of(self, spec, s, force=False):
         if spec is None:
@@ -672,11 +675,11 @@ class Interp:
         if op.get("any"):
             # peer() accepts any two services: also those a facility, a switch or a node owns
             tops = tops + [x for x in s.owned_services() if s.cls(s.owner_of_service(x)[0]) == CLS_NODE]
-        if len(tops) < 2:
+        if len(tops) < (1 if op.get("self") else 2):
             raise Skip()
         a = tops[op["a"] % len(tops)]
         rest = [t for t in tops if t != a]
-        b = rest[op["b"] % len(rest)]
+        b = a if op.get("self") else rest[op["b"] % len(rest)]      # (a service peered with itself: a fault)
         if (a, b) in self.peering(s):
             raise Skip()
         info.update(a=a, b=b)
